@@ -115,7 +115,7 @@ func (c *Ctx) mapxRun() *simpleVerdict {
 	}
 	ctor := c.MustFunc("tokenizers/utilities", "", "NewCharReferenceMap")
 	mt := ctor.Signature.Results().At(0).Type()
-	meth := func(n string) interface{} { return c.Prog.LookupMethod(mt, nil, n) }
+	meth := func(n string) interface{} { return c.lookupMethod(mt, n) }
 	_ = meth
 	nw := 12
 	parts := make([]*simpleVerdict, nw)
@@ -148,11 +148,11 @@ func (c *Ctx) mapxRun() *simpleVerdict {
 					var out mOutcome
 					switch o.kind {
 					case "add":
-						_, out = m.Call(c.Prog.LookupMethod(mt, nil, "AddInterval"), obj, o.start, o.end, refVal(o.ref))
+						_, out = m.Call(c.lookupMethod(mt, "AddInterval"), obj, o.start, o.end, refVal(o.ref))
 					case "default":
-						_, out = m.Call(c.Prog.LookupMethod(mt, nil, "AddDefaultInterval"), obj, refVal(o.ref))
+						_, out = m.Call(c.lookupMethod(mt, "AddDefaultInterval"), obj, refVal(o.ref))
 					default:
-						_, out = m.Call(c.Prog.LookupMethod(mt, nil, "Clear"), obj)
+						_, out = m.Call(c.lookupMethod(mt, "Clear"), obj)
 					}
 					if out.kind == "panic" {
 						v.bad = strings.Join(hist, "; ") + " panics: " + out.why
@@ -170,7 +170,7 @@ func (c *Ctx) mapxRun() *simpleVerdict {
 				}
 				v.runs++
 				for _, p := range probes {
-					r, out := m.Call(c.Prog.LookupMethod(mt, nil, "Lookup"), obj, p)
+					r, out := m.Call(c.lookupMethod(mt, "Lookup"), obj, p)
 					if out.kind == "panic" {
 						v.bad = fmt.Sprintf("after %s, Lookup(%#x) panics: %s", strings.Join(hist, "; "), p, out.why)
 						break
@@ -342,7 +342,7 @@ func (c *Ctx) symxRun() *simpleVerdict {
 				okSet := true
 				for _, r := range set {
 					regs = append(regs, fmt.Sprintf("Add(%q,%d)", r.text, r.typ))
-					if _, out := m.Call(c.Prog.LookupMethod(st, nil, "Add"), state, r.text, r.typ); out.kind != "ok" {
+					if _, out := m.Call(c.lookupMethod(st, "Add"), state, r.text, r.typ); out.kind != "ok" {
 						if out.kind == "panic" {
 							v.bad = strings.Join(regs, "; ") + " panics: " + out.why
 						} else {
@@ -363,7 +363,7 @@ func (c *Ctx) symxRun() *simpleVerdict {
 						v.undec = "NewStringScanner: " + out.why
 						return
 					}
-					tok, out := m.Call(c.Prog.LookupMethod(st, nil, "NextToken"), state, mIface{t: scT, v: sc}, mNil)
+					tok, out := m.Call(c.lookupMethod(st, "NextToken"), state, mIface{t: scT, v: sc}, mNil)
 					where := fmt.Sprintf("after %s, NextToken on %q", strings.Join(regs, "; "), in)
 					if len(regs) == 0 {
 						where = fmt.Sprintf("with no symbol registered, NextToken on %q", in)
@@ -376,8 +376,8 @@ func (c *Ctx) symxRun() *simpleVerdict {
 						v.undec = where + ": " + out.why
 						continue
 					}
-					val, o1 := m.Call(c.Prog.LookupMethod(tokT, nil, "Value"), tok)
-					typ, o2 := m.Call(c.Prog.LookupMethod(tokT, nil, "Type"), tok)
+					val, o1 := m.Call(c.lookupMethod(tokT, "Value"), tok)
+					typ, o2 := m.Call(c.lookupMethod(tokT, "Type"), tok)
 					if o1.kind != "ok" || o2.kind != "ok" {
 						v.undec = where + ": token accessors " + o1.why + o2.why
 						continue
@@ -385,7 +385,7 @@ func (c *Ctx) symxRun() *simpleVerdict {
 					// what is left in the scanner
 					var rest strings.Builder
 					for k := 0; k < 10; k++ {
-						r, o := m.Call(c.Prog.LookupMethod(scT, nil, "Read"), sc)
+						r, o := m.Call(c.lookupMethod(scT, "Read"), sc)
 						if o.kind != "ok" {
 							break
 						}
